@@ -60,6 +60,7 @@ package heap
 //@   requires wf(pq) && typeis(x, *Item) && unbox(x, *Item) != nil
 //@   requires fresh-name: !has(pq, unbox(x, *Item).name)
 //@   requires not-queued: forall k int :: 0 <= k && k < len(pq.queue) ==> pq.queue[k] != unbox(x, *Item)
+//@   modifies pq.queue, mapof(pq.names), unbox(x, *Item).index
 //@   ensures [C01] keeps-wf: wf(pq)
 //@   ensures [C01] appended: len(pq.queue) == old(len(pq.queue)) + 1 && pq.queue[len(pq.queue)-1] == unbox(x, *Item)
 //@   ensures [C01] prefix-untouched: forall k int :: 0 <= k && k < old(len(pq.queue)) ==> pq.queue[k] == old(pq.queue[k])
@@ -69,6 +70,7 @@ package heap
 //@   tags C01
 //@   safety nil, index, nilmap-write
 //@   requires wf(pq) && len(pq.queue) > 0
+//@   modifies pq.queue, elems(pq.queue), mapof(pq.names), pq.queue[len(pq.queue)-1].index
 //@   ensures [C01] keeps-wf: wf(pq)
 //@   ensures [C01] removed-last: typeis(result, *Item) && unbox(result, *Item) == old(pq.queue[len(pq.queue)-1])
 //@   ensures [C01] shortened: len(pq.queue) == old(len(pq.queue)) - 1
@@ -89,6 +91,8 @@ package heap
 // the set of items exactly by the pushed / removed element.
 
 //@ pure pqOf(h heap.Interface) *priorityQueue = unbox(h, *priorityQueue)
+// p is one of the queued items
+//@ pure inq(pq *priorityQueue, p *Item) bool = 0 <= p.index && p.index < len(pq.queue) && pq.queue[p.index] == p
 
 //@ extern func container/heap.Init
 //@   params h
@@ -97,6 +101,8 @@ package heap
 //@   ensures wf(pqOf(h)) && rootmin(pqOf(h))
 //@   ensures pqOf(h).queue == old(pqOf(h).queue) && pqOf(h).names == old(pqOf(h).names)
 //@   ensures forall p *Item :: p.name == old(p.name) && p.priority == old(p.priority)
+//@   ensures forall k int :: 0 <= k && k < len(pqOf(h).queue) ==> (let e = pqOf(h).queue[k] in old(inq(pqOf(h), e)))
+//@   ensures forall p *Item :: !old(inq(pqOf(h), p)) && !inq(pqOf(h), p) ==> *p == old(*p)
 //@   ensures forall s string :: has(pqOf(h), s) == old(has(pqOf(h), s)) && (has(pqOf(h), s) ==> prio(pqOf(h), s) == old(prio(pqOf(h), s)))
 
 //@ extern func container/heap.Fix
@@ -106,6 +112,8 @@ package heap
 //@   ensures wf(pqOf(h)) && rootmin(pqOf(h))
 //@   ensures pqOf(h).queue == old(pqOf(h).queue) && pqOf(h).names == old(pqOf(h).names)
 //@   ensures forall p *Item :: p.name == old(p.name) && p.priority == old(p.priority)
+//@   ensures forall k int :: 0 <= k && k < len(pqOf(h).queue) ==> (let e = pqOf(h).queue[k] in old(inq(pqOf(h), e)))
+//@   ensures forall p *Item :: !old(inq(pqOf(h), p)) && !inq(pqOf(h), p) ==> *p == old(*p)
 //@   ensures forall s string :: has(pqOf(h), s) == old(has(pqOf(h), s)) && (has(pqOf(h), s) ==> prio(pqOf(h), s) == old(prio(pqOf(h), s)))
 
 //@ extern func container/heap.Push
@@ -116,6 +124,7 @@ package heap
 //@   modifies pqOf(h).queue, arrays(*Item), mapof(pqOf(h).names), heap(Item)
 //@   ensures wf(pqOf(h)) && rootmin(pqOf(h)) && pqOf(h).names == old(pqOf(h).names)
 //@   ensures forall p *Item :: p.name == old(p.name) && p.priority == old(p.priority)
+//@   ensures forall p *Item :: !old(inq(pqOf(h), p)) && !inq(pqOf(h), p) ==> *p == old(*p)
 //@   ensures forall s string :: has(pqOf(h), s) == (old(has(pqOf(h), s)) || s == unbox(x, *Item).name)
 //@   ensures forall s string :: old(has(pqOf(h), s)) ==> prio(pqOf(h), s) == old(prio(pqOf(h), s))
 //@   ensures prio(pqOf(h), unbox(x, *Item).name) == unbox(x, *Item).priority
@@ -127,6 +136,7 @@ package heap
 //@   ensures typeis(result, *Item) && unbox(result, *Item) == old(pqOf(h).queue[0])
 //@   ensures wf(pqOf(h)) && rootmin(pqOf(h)) && pqOf(h).names == old(pqOf(h).names)
 //@   ensures forall p *Item :: p.name == old(p.name) && p.priority == old(p.priority)
+//@   ensures forall p *Item :: !old(inq(pqOf(h), p)) && !inq(pqOf(h), p) ==> *p == old(*p)
 //@   ensures forall s string :: has(pqOf(h), s) == (old(has(pqOf(h), s)) && s != old(pqOf(h).queue[0].name))
 //@   ensures forall s string :: has(pqOf(h), s) ==> prio(pqOf(h), s) == old(prio(pqOf(h), s))
 
@@ -137,6 +147,7 @@ package heap
 //@   ensures typeis(result, *Item) && unbox(result, *Item) == old(pqOf(h).queue[i])
 //@   ensures wf(pqOf(h)) && rootmin(pqOf(h)) && pqOf(h).names == old(pqOf(h).names)
 //@   ensures forall p *Item :: p.name == old(p.name) && p.priority == old(p.priority)
+//@   ensures forall p *Item :: !old(inq(pqOf(h), p)) && !inq(pqOf(h), p) ==> *p == old(*p)
 //@   ensures forall s string :: has(pqOf(h), s) == (old(has(pqOf(h), s)) && s != old(pqOf(h).queue[i].name))
 //@   ensures forall s string :: has(pqOf(h), s) ==> prio(pqOf(h), s) == old(prio(pqOf(h), s))
 
